@@ -1257,6 +1257,14 @@ Proof.
   assert (Hnf : negb (outcome_eqb (if snd (stream v) then DPanic else DEof) DFuel) = true)
     by (destruct (snd (stream v)); reflexivity).
   rewrite Hnf. cbn [andb].
+  assert (Hrefl : list_eqb token_eqb (norm_otokens (fst (stream v))) (norm_otokens (fst (stream v))) = true)
+    by now apply tokens_eqb_eq.
+  rewrite Hrefl, Bool.andb_true_r.
+  assert (Hmid : negb (snd (stream v))
+                 || (outcome_eqb (if snd (stream v) then DPanic else DEof) DPanic
+                     || outcome_eqb (if snd (stream v) then DPanic else DEof) DError) = true)
+    by (destruct (snd (stream v)); reflexivity).
+  rewrite Hmid. cbn [andb].
   destruct (no_end_tok v) eqn:Hne; [cbn [negb orb]|reflexivity].
   rewrite (stream_prefix_nested v Hne). cbn [andb].
   destruct (snd (stream v)) eqn:Hs; [reflexivity|].
@@ -1801,3 +1809,11 @@ Proof.
   - destruct x; try destruct Hx; reflexivity.
   - cbn [app]. destruct y as [n a|n|s|s|tg s|s]; cbn [norm_stream]; now rewrite IH.
 Qed.
+
+(** The specification of the container stage accepts what the model answers
+    (and, where the model panics on a marshal-only value, an error as well). *)
+Lemma prop_agree_implies_spec_ok m o : prop_obs_agrees m o = true -> prop_obs_spec_ok m o = true.
+Proof. destruct m, o; cbn; auto. Qed.
+
+Lemma propm_agree_implies_spec_ok m o : propm_obs_agrees m o = true -> propm_obs_spec_ok m o = true.
+Proof. destruct m, o; cbn; auto. Qed.
